@@ -47,7 +47,9 @@ var JsrRes = []rePool{
 	{"\\d\\d", []string{"42"}, []string{"4", "ab"}, []string{"423"}},
 }
 
-var Lits = []string{"a", "b", "users", "x1", "a.b", "abcdef", "v1", "c", "my docs", "caf\xc3\xa9", "(x)", "100%"}
+// literals with characters that mean something to regexp or to URL escaping are in on purpose: a
+// literal segment must be matched as text
+var Lits = []string{"a", "b", "users", "x1", "a.b", "abcdef", "v1", "c", "my docs", "caf\xc3\xa9", "(x)", "100%", "a+b", "cash$", "a|b", "x*y", "[ab]", "v1.0"}
 var Verbs = []string{"run", "stop"}
 var Suffixes = []string{".foo", "_x", "-bar"}
 var VarVals = []string{"1", "42", "abc", "x", "a.b", "q.foo", "y_x", "Z9", "\xc3\xa9", "a:b", "%41", " ", "b", "users", "a", "z-bar", "12:run", "{v}", "*"}
@@ -360,6 +362,43 @@ func GenReq(r *rng.R, o Opts, cfg Config) Req {
 		case 5: // odd bytes
 			if o.Adversarial && len(segs) > 0 {
 				segs[r.Intn(len(segs))] = r.Pick([]string{"\xff", "a\nb", "\x00", "{", "}", ":", "a b", strings.Repeat("z", 300)})
+			}
+		case 7: // near miss of one segment: one byte replaced, dropped or doubled (a literal that is treated
+			// as a pattern — '.', '+', '(', '$', '%' — admits exactly such neighbours)
+			if len(segs) > 0 {
+				i := r.Intn(len(segs))
+				// prefer a segment with a non-alphanumeric byte
+				for k := range segs {
+					if strings.ContainsAny(segs[k], ".+$|*[]()%") && r.Chance(2, 3) {
+						i = k
+						break
+					}
+				}
+				if b := []byte(segs[i]); len(b) > 0 {
+					j := r.Intn(len(b))
+					// prefer a non-alphanumeric byte when there is one
+					for k, c := range b {
+						if !(c >= 'a' && c <= 'z' || c >= 'A' && c <= 'Z' || c >= '0' && c <= '9') && r.Chance(2, 3) {
+							j = k
+							break
+						}
+					}
+					switch r.Intn(4) {
+					case 0:
+						b[j] = "xX0-"[r.Intn(4)]
+					case 1:
+						b = append(b[:j:j], b[j+1:]...)
+					case 2:
+						b = append(b[:j+1:j+1], b[j:]...)
+					default:
+						if j > 0 {
+							b[j] = b[j-1] // "a+b" -> "aab"
+						} else {
+							b[j] = 'x'
+						}
+					}
+					segs[i] = string(b)
+				}
 			}
 		case 6: // a segment from another route of the table
 			other := routes[r.Intn(len(routes))]
